@@ -130,3 +130,14 @@ func (c *Chain) StoreDump(storeKey string) map[string][]byte {
 }
 
 var _ = banktypes.ModuleName
+
+// SafeLockedCoins: bank LockedCoins guarded against panics of the SDK's vesting arithmetic on degenerate accounts
+// (the harness must survive states the chain itself can be put into).
+func (c *Chain) SafeLockedCoins(addr sdk.AccAddress) (coins sdk.Coins, ok bool) {
+	defer func() {
+		if r := recover(); r != nil {
+			coins, ok = sdk.NewCoins(), false
+		}
+	}()
+	return c.App.BankKeeper.LockedCoins(c.Ctx(), addr), true
+}
